@@ -39,6 +39,39 @@ def run(ctx):
         ctx.case(('z2rank', mat.tobytes(), nr, nc), want > 0, sample=dict(op='z2rank', mat=mat.tolist(), rank=got))
         if got != want:
             ctx.fail('z2rank', 'rank %d, GF(2) rank is %d' % (got, want), dict(mat=mat.tolist()))
+    # entropy after a history of measurements on a mixed state (standby rows take part in the pivoting): the state the library
+    # holds afterwards is compared, region by region, with the entropy of the projected group followed by the oracle
+    for _ in range(ctx.budget(60, 800)):
+        n = rng.choice([1, 2, 2, 3, 3, 4])
+        rows, r = G.rand_tableau(rng, n, rng.choice([1, 1, 2, None]))
+        r = min(max(r, 1), n)
+        if rng.random() < 0.4:
+            rows = G.map_to_state_ops(G.rand_map_ops(rng, n, depth=rng.randrange(0, 3)))
+        st = impl.state(rows, r)
+        act = list(rows[r:n])
+        hist = []
+        try:
+            for _k in range(rng.randrange(1, 4)):
+                if rng.random() < 0.5:
+                    obs = G.rand_herm(rng, n, nonid=True)
+                else:
+                    qz = rng.randrange(n)
+                    obs = (tuple('Z' if q_ == qz else 'I' for q_ in range(n)), 0)
+                out, _lp = st.measure(impl.plist([obs], n))
+                bit = int(np.asarray(out).reshape(-1)[0])
+                kind, dd, new = O.measure_spec(act, n, obs, random_out=bit)
+                act = new if kind != 'determined' else act
+                hist.append((obs, bit, kind))
+            ctx.count('measure-history')
+            ctx.case(('entropy-after-measure', tuple(rows), r, str(hist)), any(k_ == 'random-logical' for _o, _b, k_ in hist), sample=dict(op='entropy after measure', N=n, r=r, history=str(hist)[:200]))
+            for reg in itertools.chain.from_iterable(itertools.combinations(range(n), k) for k in range(n + 1)):
+                e = int(st.entropy(list(reg)))
+                want = spec_entropy(act, n, reg)
+                if e != want:
+                    ctx.fail('StabilizerState.entropy', 'after measuring %s on a rank-%d state the entropy of region %s is %d, the projected state has %d' % (hist, r, list(reg), e, want),
+                             dict(rows=rows, r=r, history=hist, region=reg)); break
+        except Exception as ex:
+            ctx.fail('StabilizerState.entropy', 'implementation raised %r after a measurement history' % ex, dict(rows=rows, r=r, history=hist))
     # entropy
     for _ in range(ctx.budget(120, 1500)):
         n = rng.choice([1, 2, 3, 3, 4, 4, 5, 6])
